@@ -79,6 +79,16 @@ theorem reproducible_after_any_use (g : GenState) (h : List Use) (sizes : List N
     (pass (h.foldl use g) sizes).2 = (pass g sizes).2 :=
   reseed_history_free _ _ (seed_invariant g h) sizes
 
+/-- `reseed(s)` with an explicit seed (any natural number, 0 included): the stored seed becomes `s` -/
+def reseedTo (_g : GenState) (s : Nat) : GenState := { seed := s, pos := 0 }
+
+/-- one generator object run through several seeds: after `reseed(s)` — and whatever it is used for afterwards — a pass yields
+the points of a FRESH generator constructed with seed `s`; nothing of the earlier seed survives -/
+theorem reseedTo_fresh (g : GenState) (s : Nat) (h : List Use) (sizes : List Nat) :
+    (pass (h.foldl use (reseedTo g s)) sizes).2 = (pass ⟨s, 0⟩ sizes).2 := by
+  rw [reproducible_after_any_use]
+  exact reseed_history_free _ _ rfl sizes
+
 /-- the shape of the code this state machine abstracts, read off the source on every run: `reseed` rebuilds the
 generator from the stored seed alone and stores a seed only when one is passed; the constructor is the only other
 place a seed is stored; every pass and every probe of the reader starts with an argument-less `reseed()`; the attribute
@@ -107,6 +117,7 @@ theorem glue_pinned : Gen.pinRandomProbe = "0163df6a58e1fbdd" ∧ Gen.pinRandomI
 /-! non-vacuity -/
 example : randomSizes 10 4 11 0 = [4, 4, 2] := by decide
 example : randomSizes 8 4 9 0 = [4, 4] := by decide
+example : (pass (reseedTo ⟨4242, 9⟩ 0) [2, 1]).2 = [(0, 0, 2), (0, 2, 1)] := by decide
 example : (pass ([Use.probe 5, Use.pass [3, 3]].foldl use ⟨42, 0⟩) [4, 2]).2 = [(42, 0, 4), (42, 4, 2)] := by decide
 
 end Yaw.C16
